@@ -14,6 +14,8 @@ def sci(n):
     if n < 10000:
         return str(n)
     e = len(str(n)) - 1
+    if round(n / 10 ** e, 1) >= 10:
+        e += 1
     return "%.1f·10%s" % (n / 10 ** e, "".join("⁰¹²³⁴⁵⁶⁷⁸⁹"[int(c)] for c in str(e)))
 def dur(s):
     return "%d s" % s if s < 120 else "%d min" % round(s / 60)
